@@ -214,3 +214,24 @@ func VerifParseActionList(spec string) ([]VerifAction, error) {
 	}
 	return verifActions(actions), nil
 }
+
+// ---- placeholders
+
+// VerifReplacePlaceholder expands a command template. items[0] is the current
+// item, items[1:] the selected ones (pass the current one again when nothing is
+// selected, as the terminal does). withShell as for --with-shell ("" = $SHELL).
+func VerifReplacePlaceholder(template string, stripAnsi bool, delimiter Delimiter, printsep string, forcePlus bool,
+	query string, items []*Item, prompt string, withShell string) (string, []string) {
+	return replacePlaceholder(replacePlaceholderParams{
+		template:   template,
+		stripAnsi:  stripAnsi,
+		delimiter:  delimiter,
+		printsep:   printsep,
+		forcePlus:  forcePlus,
+		query:      query,
+		allItems:   items,
+		lastAction: actStart,
+		prompt:     prompt,
+		executor:   util.NewExecutor(withShell),
+	})
+}
